@@ -41,7 +41,9 @@ def main():
         meta["demo_tests"] = tests
         dst = os.path.join(wt, pkgdir, "zz_seed_demo_test.go")
         shutil.copy(os.path.join(src, "demo_test.go"), dst)
-        cmd = "go test -vet=off -count=1 -run '%s' ./%s/" % (runre, pkgdir)
+        # a demonstration of an unsynchronised access says so at its top and needs the race detector
+        race = "-race " if re.search(r"go test[^\n]*-race", head) or re.search(r"go test[^\n]*-race", open(os.path.join(src, "README.md")).read() if os.path.exists(os.path.join(src, "README.md")) else "") else ""
+        cmd = "CGO_ENABLED=1 go test %s-vet=off -count=1 -run '%s' ./%s/" % (race, runre, pkgdir) if race else "go test -vet=off -count=1 -run '%s' ./%s/" % (runre, pkgdir)
         rc, out = sh(cmd, wt, 600)
         meta["demo_without_patch"] = {"cmd": cmd, "rc": rc, "tail": out[-600:]}
         ok_clean = rc == 0
